@@ -469,7 +469,8 @@ def add_traces(job, binary, cb, failed, res):
             wbin = None
     for o in failed:
         outp = os.path.join(job.workdir(), "trace.json")
-        cmd = [c for c in cb if c != "--json-ui"] + ["--json-ui", "--trace", "--property", o["id"]]
+        # no formula slicing in the trace pass: slicing drops the (irrelevant to the obligation) copies of the inputs
+        cmd = [c for c in cb if c not in ("--json-ui", "--slice-formula")] + ["--json-ui", "--trace", "--property", o["id"]]
         if wbin:
             cmd = [wbin if c == binary else c for c in cmd]
         rc, out, err, secs, to = run_cmd(cmd, min(job.timeout, 900), job.mem_gb, stdout_path=outp)
@@ -503,4 +504,6 @@ def compact_trace(trace):
             val = "<struct>"
         sl = st.get("sourceLocation", {})
         out.append({"lhs": lhs, "value": val, "bin": v.get("binary"), "fn": sl.get("function"), "line": sl.get("line")})
-    return out[-250:]
+    keep = [t for t in out if (t["lhs"] or "").startswith(("vc_wit", "nm["))]
+    tail = out[-250:]
+    return [t for t in keep if t not in tail] + tail
